@@ -17,12 +17,12 @@ EXPLANATION = (
     "the side without lines, and no arm leaves the loops early; (R-DIFFUNI) output_diff_unified writes the Display of "
     "unified_diff() of from_lines(old, new) with the missing-newline hint untouched; (R-DIFFSUMMARY) the Summary arm "
     "prints `<file_name>\\n`."
-    "Later rounds: (R-CHECKVERDICT); (R-DIFFBYTES) the bytes returned by output_diff_unified / output_diff reach create_diff's caller unmodified (no mutating Vec operation, also inside mapped closures). Round 22: (R-DIFFSER) every JSON mismatch record carries all six fields.")
-ASSUMPTIONS = ["similar::TextDiff computes a correct line diff and prints a correct unified diff",
+    "Later rounds: (R-CHECKVERDICT); (R-DIFFBYTES) the bytes returned by output_diff_unified / output_diff reach create_diff's caller unmodified (no mutating Vec operation, also inside mapped closures). Round 22: (R-DIFFSER) every JSON mismatch record carries all six fields. Round 23: (R-DIFFDEP) the version of `similar` pinned by Cargo.lock together with the algorithm the producers select is compared with the table of versions confirmed (by running the crate alone) to report DiffOp indices that do not tile the texts; 2.4.0 with the default algorithm is such a version - finding F25, listed in KNOWN_FINDINGS.txt.")
+ASSUMPTIONS = ["similar::TextDiff computes a correct line diff and prints a correct unified diff (known to be false for similar 2.4.0 on inputs with a repeated block: F25, reported by R-DIFFDEP)",
                "the JSON convention for a side without lines is the range [index, index] with an empty text (frozen from the code)",
                "rustc MIR and Instance::try_resolve are trusted"]
 
 
 def run(ctx):
     return [r_diff.rule_args(ctx, "C18"), r_diff.rule_none(ctx, "C18"), r_cli.rule_nodiff(ctx, "C18"),
-            r_diff.rule_json(ctx, "C18"), r_diff.rule_unified(ctx, "C18"), r_diff.rule_summary(ctx, "C18"), r_cli.rule_check_verdict(ctx, "C18"), r_diff.rule_report_bytes(ctx, "C18"), r_diff.rule_json_fields(ctx, "C18")]
+            r_diff.rule_json(ctx, "C18"), r_diff.rule_unified(ctx, "C18"), r_diff.rule_summary(ctx, "C18"), r_cli.rule_check_verdict(ctx, "C18"), r_diff.rule_report_bytes(ctx, "C18"), r_diff.rule_json_fields(ctx, "C18"), r_diff.rule_dep(ctx, "C18")]
